@@ -79,6 +79,11 @@ def bellman_ford(
         if dist[u] != float("inf") and dist[u] + w < dist[v]:
             return Result(None, float("-inf"), iterations, len(edges), Status.UNBOUNDED)
 
+    # A cycle in the predecessor graph means that some cycle was relaxed all the way round, i.e. its
+    # weight is negative; floating-point rounding can hide such a cycle from the pass above.
+    if _has_parent_cycle(parent):
+        return Result(None, float("-inf"), iterations, len(edges), Status.UNBOUNDED)
+
     if target is not None:
         if dist[target] == float("inf"):
             return Result(None, float("inf"), iterations, len(edges), Status.INFEASIBLE)
@@ -87,6 +92,22 @@ def bellman_ford(
 
     distances = {i: dist[i] for i in range(n_nodes) if dist[i] < float("inf")}
     return Result(distances, 0, iterations, len(edges))
+
+
+def _has_parent_cycle(parent):
+    """True if following predecessor pointers from some node never reaches -1."""
+    state = [0] * len(parent)  # 0 = unseen, 1 = on the current walk, 2 = known to end at -1
+    for v in range(len(parent)):
+        walk = []
+        while v != -1 and state[v] == 0:
+            state[v] = 1
+            walk.append(v)
+            v = parent[v]
+        if v != -1 and state[v] == 1:
+            return True
+        for u in walk:
+            state[u] = 2
+    return False
 
 
 def _reconstruct_indexed(parent, target):
